@@ -108,6 +108,21 @@ func genC15(g *G) {
 	for _, s := range fixed {
 		g.Emit("fparse %s", HexS([]byte(s)))
 	}
+	// over-long parts: every length at which a count kept in 8 or 16 bits would wrap into the accepted range
+	for _, id := range []string{"123", "1234ABCD"} {
+		for _, base := range []int{16, 256, 512, 768, 1024, 2048, 65536, 131072} {
+			for d := -2; d <= 18; d++ {
+				if n := base + d; n > 16 {
+					g.Emit("fparse %s", HexS([]byte(id+"#"+strings.Repeat("A1", n/2)+strings.Repeat("7", n%2))))
+				}
+			}
+		}
+		for _, n := range []int{2, 3, 4, 9, 255, 256, 257, 260, 264} {
+			g.Emit("fparse %s", HexS([]byte(id+"#R"+strings.Repeat("8", n))))
+			g.Emit("fparse %s", HexS([]byte(strings.Repeat("1", n)+"#00")))
+		}
+	}
+	g.Tag("over-long-parts")
 	n := g.N(4000, 200000)
 	for i := 0; i < n; i++ {
 		s := patternString(g)
@@ -227,6 +242,22 @@ func genC16(g *G) {
 	for _, s := range fixed {
 		g.Emit("junm %s", HexS([]byte(s)))
 	}
+	// over-long members: every data length (in bytes) around 8, 256, 512, 65536, and lengths / ids around the
+	// integer type boundaries
+	for _, base := range []int{8, 256, 512, 768, 1024, 65536} {
+		for d := -1; d <= 9; d++ {
+			if n := base + d; n > 8 {
+				g.Emit("junm %s", HexS([]byte("{\"id\":1,\"data\":\""+strings.Repeat("a1", n)+"\"}")))
+				g.Emit("junm %s", HexS([]byte("{\"id\":1,\"extended\":true,\"data\":\""+strings.Repeat("0f", n)+"\"}")))
+			}
+		}
+	}
+	for _, v := range []string{"255", "256", "257", "264", "65536", "65544", "4294967296", "4294967304", "18446744073709551616", "-1", "-248", "8.0", "8e0", "1e1"} {
+		g.Emit("junm %s", HexS([]byte("{\"id\":1,\"remote\":true,\"length\":"+v+"}")))
+		g.Emit("junm %s", HexS([]byte("{\"id\":"+v+"}")))
+		g.Emit("junm %s", HexS([]byte("{\"extended\":true,\"id\":"+v+"}")))
+	}
+	g.Tag("over-long-members")
 	n := g.N(5000, 250000)
 	for i := 0; i < n; i++ {
 		d := randomDoc(g)
